@@ -48,7 +48,8 @@ func genARPSpoof(prop string, seed uint64, tier string) Scenario {
 		case 1:
 			sc.Ops = append(sc.Ops, Op{K: "unhunt", T: r.n(napi), M: m, D: r.weighted([]int{3, 2, 2, 2, 2, 2, 3, 2, 1})})
 		case 2:
-			sc.Ops = append(sc.Ops, Op{K: "arpreq", T: 10 + m, M: m, I: r.weighted([]int{6, 2, 1}), D: r.n(7)})
+			// S: whose address the sender claims (0 its own, else another target's: an address conflict)
+			sc.Ops = append(sc.Ops, Op{K: "arpreq", T: 10 + m, M: m, I: r.weighted([]int{6, 2, 1}), S: r.pick(0, 0, 0, 1, 2), D: r.n(7)})
 		case 3:
 			sc.Ops = append(sc.Ops, Op{K: "probe", T: 10 + m, M: m, I: r.n(5), D: r.n(6)})
 		case 4:
@@ -115,7 +116,7 @@ func runARPSpoof(e *exec) {
 			} else if o.I == 2 {
 				tpa = u.HostIP
 			}
-			a.inject(i, "arpreq", 0, fb.Eth(fb.Broadcast, mac, 0x0806, fb.ARP(1, mac, targetIP(o.M), fb.MAC{}, tpa)))
+			a.inject(i, "arpreq", 0, fb.Eth(fb.Broadcast, mac, 0x0806, fb.ARP(1, mac, targetIP(o.M+o.S), fb.MAC{}, tpa)))
 		case "probe":
 			a.inject(i, "probe", 0, fb.Eth(fb.Broadcast, mac, 0x0806, fb.ARP(1, mac, netip.MustParseAddr("0.0.0.0"), fb.MAC{}, probeAddr(o.M, o.I))))
 		case "offer":
